@@ -69,25 +69,75 @@ var (
 	}
 )
 
-// hostPool is targetHosts plus every hosts-file alias of a loopback address on this machine (as written
-// and with the first letter in upper case): the proxy appends them to its localhost names when it is
-// constructed through NewHTTPProxy, so they must be routed like "localhost" in every --proxy-localhost mode.
-func hostPool() []string {
+// hostPool is targetHosts plus every hosts-file alias of a loopback address (as written and with the first
+// letter in upper case; for a generated hosts file also in lower, upper and mixed case, and the names of its
+// other records): the proxy appends the aliases to its localhost names when it is constructed through
+// NewHTTPProxy, so they must be routed like "localhost" in every --proxy-localhost mode.
+func hostPool(v *hostsView) []string {
 	out := append([]string{}, targetHosts...)
-	for _, a := range aliasTargets() {
-		out = append(out, a, a, strings.ToUpper(a[:1])+a[1:])
+	if v.text == "" {
+		for _, a := range v.aliasTargets() {
+			out = append(out, a, a, strings.ToUpper(a[:1])+a[1:])
+		}
+		return out
+	}
+	// a generated file: its names make up most of the pool
+	vs := v.variants()
+	for i := 0; i < 3; i++ {
+		out = append(out, vs...)
 	}
 	return out
 }
 
-// routesFor are the fixed connect-to routes: fixedRoutes plus routes that bring the aliases to the
-// scripted origin (otherwise a direct dial to an alias would leave the scripted listeners).
-func routesFor() []reqmodel.HostPortPair {
-	out := append([]reqmodel.HostPortPair{}, fixedRoutes...)
-	for _, a := range aliasTargets() {
-		for _, n := range []string{a, strings.ToUpper(a[:1]) + a[1:]} {
-			out = append(out, reqmodel.HostPortPair{SrcHost: n, SrcPort: "80", DstHost: "@origin"}, reqmodel.HostPortPair{SrcHost: n, SrcPort: "443", DstHost: "@origin"})
+func mixCase(s string) string {
+	b := []byte(s)
+	for i := range b {
+		if i%2 == 1 {
+			if b[i] >= 'a' && b[i] <= 'z' {
+				b[i] -= 32
+			} else if b[i] >= 'A' && b[i] <= 'Z' {
+				b[i] += 32
+			}
 		}
+	}
+	return string(b)
+}
+
+// variants: the spellings of the view's names that cases use as targets.
+func (v *hostsView) variants() []string {
+	var out []string
+	if v.text == "" {
+		for _, a := range v.aliasTargets() {
+			out = append(out, a, strings.ToUpper(a[:1])+a[1:])
+		}
+		return out
+	}
+	seen := map[string]bool{}
+	add := func(n string) {
+		if !seen[n] {
+			seen[n] = true
+			out = append(out, n)
+		}
+	}
+	for _, a := range v.aliasTargets() {
+		add(a)
+		add(strings.ToLower(a))
+		add(strings.ToUpper(a))
+		add(mixCase(a))
+	}
+	for _, a := range v.otherTargets() {
+		add(a)
+		add(strings.ToLower(a))
+	}
+	return out
+}
+
+// routesFor are the fixed connect-to routes: fixedRoutes plus routes that bring the hosts-file names to the
+// scripted origin (otherwise a direct dial to one of them would leave the scripted listeners).
+func routesFor(v *hostsView) []reqmodel.HostPortPair {
+	out := append([]reqmodel.HostPortPair{}, fixedRoutes...)
+	for _, n := range v.variants() {
+		out = append(out, reqmodel.HostPortPair{SrcHost: n, SrcPort: "80", DstHost: "@origin"}, reqmodel.HostPortPair{SrcHost: n, SrcPort: "443", DstHost: "@origin"})
 	}
 	return out
 }
@@ -204,8 +254,10 @@ func genRuleResult(r *core.Rand) reqmodel.PacResult {
 	return genPacResult(r)
 }
 
-func genCase(r *core.Rand) *rcase {
-	hosts := hostPool()
+func genCase(r *core.Rand) *rcase { return genCaseView(r, machineView()) }
+
+func genCaseView(r *core.Rand, v *hostsView) *rcase {
+	hosts := hostPool(v)
 	rc := &rcase{Kind: "routing", LocalMode: core.Pick(r, []string{"deny", "allow", "direct", "direct"})}
 	switch r.Intn(10) {
 	case 0:
@@ -261,7 +313,7 @@ func genCase(r *core.Rand) *rcase {
 		rc.Route.ConnectTo = append(rc.Route.ConnectTo, core.Pick(r, generatedRules))
 	}
 	rc.NGen = ng
-	rc.Route.ConnectTo = append(rc.Route.ConnectTo, routesFor()...)
+	rc.Route.ConnectTo = append(rc.Route.ConnectTo, routesFor(v)...)
 	rc.MITM = r.Chance(25)
 	// the request sequence: most targets go to one host[:port] (with varying path / query / scheme / kind),
 	// the rest anywhere
